@@ -47,6 +47,21 @@ claim("C20", "DESIGN.md section 4 C20 + section 11",
       "md5 collision-freedom is assumed, not proved; ints below CPython's 4300-digit str limit; calc_ast_hash raises ValueError for dumps with code points above 255 "
       "(modelled as None, judged outside the property).")
 
+claim("C13", "DESIGN.md section 4 C13 + section 11",
+      "proof: as_ast = ast.parse(repr(v)) modelled at character level (CPython repr, lexer and recursive-descent parser of the literal grammar); proved that every "
+      "str/bytes/int/bool/None/finite-float/list/tuple/dict nest within CPython's limits (4300 digits, 200 brackets) is embedded as exactly its literal, that literal_eval "
+      "maps it back type-exactly, that every str becomes one identical string constant (never parsed as code), and that nothing is altered beyond those limits (refusal); "
+      "check_ast passes exactly on transportable constants over all node classes, and the As*/MetaData entry points put each argument in its wire position, both over generated tables. "
+      "Partial: float tokens are opaque; repr of non-printable non-ASCII code points is not modelled (the composite as_ast is compared on such strings).",
+      "CPython's float shortest-repr round trip is trusted; ast.literal_eval is the oracle; None is deliberately not transportable inside lambdas (check_ast refusal).")
+claim("C04", "DESIGN.md section 4 C04/C05 + section 11",
+      "proof (partial): Coq theorems over the executable model of _rewrite_captured_vars/check_ast: scope (capture_respects_scope: snapshot values of names on the ignore stack - own "
+      "parameters, nested lambdas, comprehension targets - never affect the result, for all trees), gate (check_ast accepts exactly the legal constant kinds of the generated table, "
+      "otherwise ValueError, never a malformed tree), and capture_freezes_partial (refinement direction, first-order fragment, literal snapshots: the recorded lambda needs nothing from later "
+      "environments). Exact differential correspondence on generated Python programs (closures, globals, class constants, module attributes, enums, every shadowing pattern), with a value oracle "
+      "against the real callable after every captured name has been rebound or deleted.",
+      "What inspect.getclosurevars / getattr report and source recovery are inputs of the model (validated by correspondence only). Non-positional parameter kinds are oracle-only.")
+
 ALL = ["C%02d" % i for i in range(1, 21)]
 PENDING = "not yet claimed: model, correspondence and proofs for this property are still being integrated (DESIGN.md section 10 staging)"
 
